@@ -567,7 +567,7 @@ class Process(StateMachine, persistence.Savable, metaclass=ProcessStateMachineMe
         exception: Optional[BaseException],
         trace: Optional[TracebackType],
     ) -> None:
-        if self.state != process_states.ProcessState.EXCEPTED:
+        if not self.has_terminated():
             self.fail(exception, trace)
 
     @contextlib.contextmanager
@@ -1217,6 +1217,10 @@ class Process(StateMachine, persistence.Savable, metaclass=ProcessStateMachineMe
         :param exception: The exception that caused the failure
         :param trace_back: Optional exception traceback
         """
+        if self.has_terminated():
+            # A terminal state is final
+            return False  # type: ignore[return-value]
+
         new_state = self._create_state_instance(
             process_states.ProcessState.EXCEPTED, exception=exception, trace_back=trace_back
         )
